@@ -229,6 +229,59 @@ def gen_split(rng, proj, force_first=False):
     return split
 
 
+def gen_edit_import(rng, proj):
+    """the next generation in which ONLY a mage:import'ed package is edited (a new target, a changed parameter
+    list, a renamed target); None when the package imports nothing"""
+    import copy
+    if len(proj["pkgs"]) < 2:
+        return None
+    new = copy.deepcopy(proj)
+    new["prev_files"] = render(proj)
+    pk = rng.choice(new["pkgs"][1:])
+    used = set(target_name(p, d).lower() for p in new["pkgs"] for d in p["decls"]) | set(a.lower() for a, _ in new["aliases"])
+    go_names = set(pk["nss"]) | set(d["name"] for d in pk["decls"] if not d["recv"])
+    fresh = [n for n in ["Deploy2", "Publish", "Stage", "Rel", "Pkg", "Ship", "Sync", "W"]
+             if ":".join(x for x in (pk["alias"], n) if x).lower() not in used and n not in go_names]
+    referenced = set(x[1] for x in new["aliases"]) | {new["default"]}
+    renamable = [d for d in pk["decls"] if d["def"] not in referenced and not d["recv"]]
+    kinds = ["imp-params", "imp-params"] + (["imp-new", "imp-new"] + (["imp-rename"] if renamable else []) if fresh else [])
+    kind = rng.choice(kinds)
+    if kind == "imp-new":
+        nd = {"def": 1 + max(d["def"] for p in new["pkgs"] for d in p["decls"]), "name": rng.choice(fresh), "recv": "",
+              "params": [rng.choice(TYPES) for _ in range(rng.choice([0, 1, 2, 2]))], "ctx": rng.random() < 0.3, "err": rng.random() < 0.6,
+              "ptr": False, "group": False}
+        pk["decls"].append(nd)
+        new["edit"] = {"kind": kind, "def": nd["def"]}
+    elif kind == "imp-params":
+        d = rng.choice(pk["decls"])
+        old = list(d["params"])
+        while d["params"] == old:
+            d["params"] = [rng.choice(TYPES) for _ in range(rng.choice([0, 1, 2, 3]))]
+        new["edit"] = {"kind": kind, "def": d["def"], "old_params": old}
+    else:
+        d = rng.choice(renamable)
+        new["edit"] = {"kind": kind, "def": d["def"], "old_name": ":".join(x for x in (pk["alias"], d["name"]) if x)}
+        d["name"] = rng.choice(fresh)
+    return new
+
+
+# the go tool's environment for the first run after an edit (default mode: "a go build cache exists -> always
+# rebuild").  NEW = a directory that does not exist yet, SHM = a directory on another file system.
+# mayfail: the go tool refuses to build under it - then nothing may run at all
+GOENVS = {
+    "default": ({}, False),
+    "gocache-new": ({"GOCACHE": "NEW"}, False),
+    "gocache-new-nohome": ({"GOCACHE": "NEW", "HOME": None}, False),
+    "gocache-off": ({"GOCACHE": "off"}, True),
+    "gocache-relative": ({"GOCACHE": "relcache"}, True),
+    "goflags-tags": ({"GOFLAGS": "-mod=mod -tags=x"}, False),
+    "goflags-trimpath": ({"GOFLAGS": "-mod=mod -trimpath"}, False),
+    "tmpdir-elsewhere": ({"GOTMPDIR": "SHM", "TMPDIR": "SHM"}, False),
+    "gopath-elsewhere": ({"GOPATH": "NEW"}, False),
+    "home-unset": ({"HOME": None}, True),
+}
+
+
 def gen_edit(rng, proj):
     """the next generation of a package: ONE magefile (a_targets.go) is edited - a new target, a changed
     parameter list, or a renamed target.  Returns the new spec; new["prev_files"] are the old sources and
